@@ -257,23 +257,49 @@ func c12Run(c *Ctx) {
 			tail = a.T + 300*time.Millisecond
 		}
 	}
-	if c.W.Draw(8) == 7 {
-		// past the system default timeout: a long-lived actor that silently fell
-		// back to the default strategy would go now
-		tail = actor.DefaultPassivationTimeout + time.Second
-		c.Probe("tail-past-default-timeout")
-	}
+	longTail := c.W.Draw(8) == 7
 	Sleep(tail)
-	for m := range sub.Iterator() {
-		switch e := m.Payload().(type) {
-		case *actor.ActorPassivated:
-			st.passivated[e.ActorPath().Name()]++
-		case *actor.ActorStopped:
-			st.stoppedEv[e.ActorPath().Name()]++
+	drain := func() {
+		for m := range sub.Iterator() {
+			switch e := m.Payload().(type) {
+			case *actor.ActorPassivated:
+				st.passivated[e.ActorPath().Name()]++
+			case *actor.ActorStopped:
+				st.stoppedEv[e.ActorPath().Name()]++
+			}
+		}
+	}
+	drain()
+	var tailState []string
+	for _, a := range st.acts {
+		st.running[a.name] = a.pid.IsRunning()
+		tailState = append(tailState, fmt.Sprintf("%s:running=%v,pausedFlag=%v,suspended=%v", a.name, st.running[a.name], actor.VerifPassivationPaused(a.pid), a.pid.IsSuspended()))
+	}
+	c.Note("tail_state", tailState)
+	if longTail {
+		// Past the system default timeout: a long-lived actor that silently fell
+		// back to the default strategy would go now. The other actors are stopped
+		// first: two minutes of fake time are free, but an actor whose declined
+		// passivation attempt is retried every T (e.g. T=5ms with the paused flag
+		// set and the manager entry scheduled, which a PausePassivation racing a
+		// Reinstate leaves behind) costs ~16 steps per retry and hits the step cap.
+		c.Probe("tail-past-default-timeout")
+		for _, a := range st.acts {
+			if a.kind != "long" && (a.pid.IsRunning() || a.pid.IsSuspended()) {
+				s.Ev(Ev{Actor: a.name, Kind: "stop-issued", Aux: "stop-before-long-tail"})
+				err := a.pid.Shutdown(s.Ctx)
+				s.Ev(Ev{Actor: a.name, Kind: "stop-returned", Aux: err})
+			}
+		}
+		Sleep(actor.DefaultPassivationTimeout + time.Second)
+		drain()
+		for _, a := range st.acts {
+			if a.kind == "long" {
+				st.running[a.name] = a.pid.IsRunning()
+			}
 		}
 	}
 	for _, a := range st.acts {
-		st.running[a.name] = a.pid.IsRunning()
 		if st.passivated[a.name] > 0 {
 			c.Probe("passivated:" + a.kind)
 		}
@@ -294,12 +320,21 @@ func c12Do(c *Ctx, st *c12State, thread int, it c12Item) {
 		_ = s.Tell(a.pid, it.cmd)
 	case "pause":
 		c.Ops++
+		// The flag can only confirm THIS pause when it was clear before the send:
+		// it may still be set by an earlier pause whose ResumePassivation is
+		// queued behind a busy handler (system messages wait for the turn), or by
+		// a suspension.
+		stale := actor.VerifPassivationPaused(a.pid)
 		if err := actor.Tell(ctx, a.pid, new(actor.PausePassivation)); err != nil {
 			s.Ev(Ev{Actor: a.name, Kind: "pause-rejected", Aux: err})
 			return
 		}
 		s.Ev(Ev{Actor: a.name, Kind: "pause-sent"})
 		if a.kind == "long" {
+			return
+		}
+		if stale {
+			c.Probe("pause-unconfirmable")
 			return
 		}
 		ok := false
@@ -541,6 +576,22 @@ func c12Finish(c *Ctx) {
 				return
 			}
 		case "count":
+			// goakt counts a message when it dispatches it, right before the
+			// behaviour is called (pid.go handleReceived), and the manager stops
+			// the actor from its own goroutine: PostStop can be entered before the
+			// Receive of the N-th, already dispatched message (that ordering is
+			// C06's receive-after-poststop|passivation). Messages handed to
+			// Receive at the very instant of the passivation are therefore counted.
+			inflight := 0
+			for _, e := range log {
+				if e.Seq > p.Seq && e.Actor == a.name && e.Kind == "recv-enter" && e.T == p.T {
+					inflight++
+				}
+			}
+			if inflight > 0 && nrecv < a.N && nrecv+inflight >= a.N {
+				c.Probe("count-reached-by-inflight-message")
+			}
+			nrecv += inflight
 			if nrecv < a.N {
 				c.Fail("passivated-before-count", "message-count", "%s passivated at %v after only %d of %d messages; history: %s", descr, p.T, nrecv, a.N, hist(a, p.Seq))
 				return
